@@ -258,6 +258,9 @@ func (g *seqGen) bulkOutcome(keys []int) string {
 		}
 	}
 	body := strings.Join(kv, ",")
+	if r.chance(0.1) {
+		body = "" // the loader reports nothing at all (nil or empty map)
+	}
 	switch {
 	case n < 7:
 		return "ok:" + body
